@@ -406,6 +406,25 @@ def oracle(ctx, intensive: bool = False, hints: List[Dict[str, Any]] = ()) -> C.
         run_case(P, x, y, fs, opts, kind, single, max_bins=40)
         if i < 2:
             P.sample({"op": "oracle-locked", "mode": "cross" if y is not None else "auto", "kind": kind, "N": len(x), "fs": fs, "opts": opts, "single": single})
+    # chunked reduction of the NumPy kernels (they process the segments of a bin in chunks of 32768 / 16384 / 8192): bins with MORE segments than
+    # one chunk, on records whose level changes along the record, so that a scatter taken about a per-chunk or running mean differs from the
+    # scatter about the bin's mean (seeded defect C11d). Short segments keep the reference evaluation cheap.
+    n_chunk = ctx.scale(4, 12) * (2 if intensive else 1)
+    for i in range(n_chunk):
+        if ctx.time_left() < (600 if ctx.thorough else 60) or len(P.violations) >= S.MAX_VIOL:
+            break
+        order = (0, -1, 1, 2)[i % 4]
+        cross = bool((i // 4) % 2) if i >= 4 else False
+        L = int(rng.integers(3, 7))
+        K_min = {0: 32768, -1: 32768, 1: 16384 if not cross else 8192, 2: 16384 if not cross else 8192}[order]
+        N = int((K_min + int(rng.integers(200, 3000))) * (L - L // 2) + L)          # hop L - L//2 at olap 0.5  =>  K > one chunk
+        g = np.ones(N)
+        g[int(N * float(rng.uniform(0.55, 0.85))):] = float(rng.uniform(2.0, 4.0))   # level step
+        x = g * rng.standard_normal(N) + 0.5
+        y = (0.6 * np.roll(x, 1) + g * rng.standard_normal(N)) if cross else None
+        opts = {"order": order, "olap": 0.5, "win": "hann", "backend": "numpy"}
+        run_case(P, x, y, 1.0, opts, "level-step/many-segments", {"freq": float(rng.uniform(0.05, 0.45)), "L": L}, max_bins=1)
+        P.hit(f"chunked:order{order}:{'cross' if cross else 'auto'}")
     det = sorted(k[1:] for k in P.nontrivial if k[0] == "tight")
     P.notes.append(f"near-identical-segment region: {P.histogram.get('tight:detectable', 0)} bins so far where an error of "
                    f"u*|mean|^2/4 in the scatter would be seen; distinct (entry, mode, order, backend, exactly-identical): {len(det)}")
